@@ -2052,6 +2052,7 @@ def fork_map(func, items, procs=4):
     """like common.pmap but with plain (non-daemonic) forked children, so that func may itself start
     multiprocessing workers (process-mode runs of doit).  Results come back pickled through pipes."""
     import pickle
+    import select
     items = list(items)
     if len(items) <= 1 or procs <= 1:
         return [func(it) for it in items]
@@ -2080,17 +2081,27 @@ def fork_map(func, items, procs=4):
                 finally:
                     os._exit(code)
             os.close(w)
-            running[pid] = (i, r)
-        pid, _ = os.wait()
-        if pid not in running:
-            continue
-        i, r = running.pop(pid)
-        with os.fdopen(r, 'rb') as f:
-            data = f.read()
-        kind, val = pickle.loads(data) if data else ('exc', 'child died without an answer')
-        if kind == 'exc':
-            raise RuntimeError('worker failed:\n' + val)
-        results[i] = val
+            running[r] = (i, pid, [])
+        # drain the pipes BEFORE reaping: a child whose pickled result is larger than the pipe buffer blocks in
+        # write() until somebody reads, so waiting for its exit first deadlocks
+        ready, _, _ = select.select(list(running), [], [], 1.0)
+        for r in ready:
+            chunk = os.read(r, 1 << 16)
+            i, pid, chunks = running[r]
+            if chunk:
+                chunks.append(chunk)
+                continue
+            os.close(r)                    # EOF: the child has written everything (or died)
+            del running[r]
+            try:
+                os.waitpid(pid, 0)
+            except OSError:
+                pass
+            data = b''.join(chunks)
+            kind, val = pickle.loads(data) if data else ('exc', 'child died without an answer')
+            if kind == 'exc':
+                raise RuntimeError('worker failed:\n' + val)
+            results[i] = val
     return results
 
 
